@@ -107,7 +107,7 @@ def gen_scenario(rng: random.Random, seed: int, cls: str) -> dict:
         members.append(m)
     sc = dict(cls=cls, seed=seed, topics=topics, loglen=rng.choice([2, 4, 8]), nnodes=rng.choice([1, 2, 3]),
               join_max=rng.choice([0, 1, 2, 5, 5]), duration=dur, members=members, faults=dict(budget=0))
-    if cls in ("churn", "faults", "subs"):
+    if cls in ("churn", "faults", "subs", "live", "syncfault", "latelookup"):
         for m in members:
             r = rng.random()
             if r < 0.30:
@@ -123,6 +123,27 @@ def gen_scenario(rng: random.Random, seed: int, cls: str) -> dict:
                             slow=rng.choice([0, 0.005, 0.03]))
         if sc["nnodes"] > 1 and rng.random() < 0.4:
             sc["failover"] = [round(0.3 + rng.random() * dur * 0.7, 3), rng.randrange(sc["nnodes"]), rng.random() < 0.5]
+    if cls == "live":
+        # records keep arriving while members come and go: a getmany() parked before a rebalance began must stay
+        # silent until the new assignment is in (C05), nothing is lost or skipped across the hand-over (C04)
+        for m in members:
+            m["mode"] = "getmany"
+            m["listener_sleep"] = rng.choice([0.05, 0.15, 0.3])
+        sc["appends"] = [[round(0.2 + rng.random() * dur, 3), "t", rng.randrange(topics["t"]), rng.randrange(1, 3)]
+                         for _ in range(rng.randrange(6, 16))]
+    if cls == "syncfault":
+        # the coordinator moves / is unavailable exactly at a SyncGroup of a member that already held an assignment
+        sc["faults"] = dict(budget=0, script=[["SyncGroup", rng.randrange(2, 6), "error", rng.choice([15, 16])]],
+                            slow=rng.choice([0, 0.005]))
+    if cls == "latelookup":
+        # committed-offset lookups that do not start together (one partition gets its leader while the others'
+        # OffsetFetch is still in flight): the late one must still start from the committed offset
+        sc["nnodes"] = max(2, sc["nnodes"])
+        sc["slow_offset_fetch"] = rng.choice([0.15, 0.3])
+        sc["noleader"] = [["t", rng.randrange(topics["t"]), rng.choice([0.05, 0.1, 0.2])]]
+        for m in members:
+            m["start"] = 0
+            m["explicit_commit_every"] = 1
     if cls == "subs":
         for m in members:
             if rng.random() < 0.4:
